@@ -234,9 +234,17 @@ fn exec_lut(ctx: &mut Ctx, ev: &Ev) {
         let s2 = Sop::from(f.clone());
         let b1 = Lut::from(&s1);
         let b2 = Lut::from(s1.clone());
-        (s1, s2, b1, b2)
+        // Clone routes: destinations of other arities with shorter and longer cube lists
+        let long: Vec<Cube> = (0..s1.num_cubes() + 3).map(|k| Cube::nth_var(k % (n + 2))).collect();
+        let dsts = vec![Sop::zero(n), Sop::one(n + 1), Sop::from_cubes(n + 2, long.clone()), Sop::from_cubes(n + 3, long), Sop::zero(0)];
+        let routes = vmon::obs::clone_routes(&s1, &dsts, &|x: &Sop, y: &Sop| x.num_vars() == y.num_vars() && x.cubes() == y.cubes() && Lut::from(x) == Lut::from(y));
+        (s1, s2, b1, b2, routes)
     }) {
-        Outcome::Returned((s1, s2, b1, b2)) => {
+        Outcome::Returned((s1, s2, b1, b2, routes)) => {
+            match routes {
+                Ok(k) => ctx.checked("clone-routes", k as u64),
+                Err(route) => ctx.violate("clone-routes", ev, "clone", format!("{} does not give a Sop equal to the source (minterm cover of {})", route, f)),
+            }
             let mut got: Vec<CubeM> = s1.cubes().iter().map(CubeM::of).collect();
             let len = got.len();
             got.sort();
